@@ -273,7 +273,11 @@ def top_fn(F, fn):
     """the enclosing non-closure function"""
     cur = fn.promoted_of or fn
     while cur.kind == "closure":
-        cur = F.fn(cur.d["parent"])
+        nxt = F.fn(cur.d["parent"])
+        if nxt is None:
+            # the closure belongs to an item without a MIR body of its own (a static / thread_local initialiser)
+            return cur
+        cur = nxt
     return cur
 
 
@@ -429,3 +433,39 @@ def depth_dataflow(fn, pushes, pops):
         if fn.term(b)["k"] == "return" and ds != {0}:
             problems.append("a non-error path returns with scope depth %s (a pushed scope is not popped, or popped twice)" % sorted(ds))
     return depth_in, problems
+
+
+
+LAZY_ADAPTORS = ("map", "chain", "filter", "filter_map", "flat_map", "zip", "rev", "enumerate", "skip", "take", "cloned",
+                 "copied", "once", "iter", "into_iter", "peekable", "inspect", "flatten", "map_while", "take_while", "skip_while")
+
+
+def site_anchors(F, fn, body, bi):
+    """blocks of `fn` at which a call site (body, bi) executes, where `body` is fn or one of its (nested) closures: a closure
+    handed to an eager combinator runs at that call, a closure handed to a lazy iterator adaptor runs where the iterator is
+    consumed (followed through further adaptors)"""
+    from ..flow import origins
+    from ..guards import _closure_use
+    if body.path == fn.path:
+        return {bi}
+    use = _closure_use(F, body)
+    if use is None:
+        return set()
+    parent, cb, ct = use
+    nm = ct["callee"].get("name")
+    if nm in LAZY_ADAPTORS and "indirect" not in ct["callee"]:
+        out = set()
+        frontier, seen = [cb], set()
+        while frontier:
+            src = frontier.pop()
+            if src in seen:
+                continue
+            seen.add(src)
+            for b2, t2 in parent.calls():
+                if b2 != src and any(d[0] == "call" and d[1] == src for a in t2["args"] for d, _ in origins(parent, a)):
+                    if t2["callee"].get("name") in LAZY_ADAPTORS and "indirect" not in t2["callee"]:
+                        frontier.append(b2)
+                    else:
+                        out |= site_anchors(F, fn, parent, b2)
+        return out
+    return site_anchors(F, fn, parent, cb)
